@@ -88,6 +88,27 @@ CLAIMS = {
          'sessions not sampled; in-memory network instead of TCP. Partial aspect: real preemption/GIL/kernel buffers cannot be exhibited by the model.',
          'Lean 4 proof (diamond + confluence of a Kahn-style network, induction over phases) + step-level correspondence under a deterministic scheduler'),
 
+ 'C08': ('Lean 4 theorems: log_is_session_spec (in EVERY schedule of the nine session threads, when nobody can move any more main has emitted '
+         'open, one record per configured board in order, close, and no other thread writes), log_independent_of_schedule (any two executions that '
+         'came to rest wrote the same log and carried the same messages on every channel), deal_logged_is_original (id, dealer, ORIGINAL deal, team '
+         'names, dda, the calls as sent), scores_are_opposite, passed_out_record_shape, record_follows_rules (for conforming decisions the recorded '
+         'contract is the Laws\' contract of the auction (C03 spec), the play is the cards cut in fours with their true leaders (C04 spec), tricks = '
+         'tricks won by declarer\'s side, score = duplicate score law for declarer\'s side (C07 spec)). Unbounded boards / auctions / schedules. '
+         'Tie to /repo: the unmodified threaded Server with four scripted clients under the deterministic scheduler; every log record compared field by '
+         'field with the Lean record, each scenario under >= 2 schedules with byte-identical logs.',
+         'Trusted: Lean kernel (3 standard axioms); primitive semantics of Queue / socket / Barrier (as C09); session model faithfulness on sessions not '
+         'sampled; json.loads to read the log (the text layer is C12). Partial aspect: real preemption and TCP are replaced by the scheduler and an in-memory net.',
+         'Lean 4 proof (confluence of the session network + refinement to the C03/C04/C07 specs) + record-level correspondence under a deterministic scheduler'),
+ 'C10': ('Lean 4 theorems: s2c_history_is_seat_stream (what the seat thread of p sends on p\'s connection is exactly the rendering of the declarative '
+         'event list seatEvents), streams_independent_of_schedule (in every schedule the connection history is a prefix of that stream and equals it when '
+         'the session has come to rest), own_cards_only (own 13 cards once per board straight after the header; the only other hand ever shown is dummy\'s, '
+         'and never to dummy), board_header_is_configured (number = position in the configured list, configured dealer and vulnerability, once per board), '
+         'relay_exactly_once_in_order / card_relay_exactly_once_in_order (relays = exactly the calls/cards that did not arrive on that connection, once, in '
+         'order; declarer sends dummy\'s), dummy_disclosed_between_lead_and_second_card, lead_prompt_only_to_leader. Unbounded sessions. Tie to /repo: the '
+         'complete server->client byte stream of each connection, split at CR LF and classified by the protocol grammar, equals the specified event sequence.',
+         'Trusted: as C08; the message classifier of the harness (session_props.classify).',
+         'Lean 4 proof (per-phase refinement of the seat-thread programs to a declarative per-seat event list, lifted to all schedules by confluence) + stream-level correspondence'),
+
  'C19': ('Lean 4 theorems about the models of the message builders and parsers of both ends (each parser = its regular expression with re.match '
          'semantics: greedy groups with backtracking, case-insensitive literals): hand_msg_round_trip (any hand, voids, any seat name / Dummy), '
          'bid_msg_round_trip (38 calls x 4 seats, ANY letter case), bid_msg_alert_round_trip (alert suffix stripped, same call), '
